@@ -637,3 +637,25 @@ Proof. exact ex_mkdir_accounting. Qed.
 
 Print Assumptions C05_vol_alloc_new_cluster_accounting.
 Print Assumptions C05_vol_dir_accounting_partial.
+
+(* remove of an EMPTY DIRECTORY of the fixed root reclaims its whole chain (the image-level C05 clause, PROVED IN GENERAL): the name
+   resolves to a directory entry with chain l (distinct clusters) that is empty for the code; then remove succeeds, every cluster of
+   l was allocated and is free afterwards, no other FAT entry changes, count_free grows by exactly length l, nothing changes outside
+   the FAT copies and the root region, the latch is map_free (+ length l), consistent with the new table.
+   (Premises satisfiable: Proofs/VolDirTreeExamples.ex_rmdir_hyps.) *)
+Theorem C05_vol_remove_dir_reclaims_all : forall upper oem im fi name ev l,
+  let g := parse_geom im in
+  fixed_root_geom g -> FatProofs.bytes_ok im -> fi_inv fstore (val_ft (ft_of g)) (store_of g im) fi (g_clusters g) ->
+  root_lookup upper oem im name = Ok ev -> Lfn.ev_is_dir ev = true -> is_special ev = false ->
+  root_entry_cluster ev <> 0 -> chain_from g im (root_entry_cluster ev) (Abs.chain_fuel g) = Some l -> NoDup l ->
+  dir_is_empty oem g im l = Ok true ->
+  exists im',
+    vol_remove_dir_root upper oem im fi name = Some (Ok tt, im', map_free fi (fun n => n + N.of_nat (length l))) /\
+    (forall x, In x l -> 2 <= x < g_clusters g + 2 /\ fat_val g im x <> FFree /\ fat_val g im' x = FFree) /\
+    (forall x, 2 <= x < g_clusters g + 2 -> ~ In x l -> fat_val g im' x = fat_val g im x) /\
+    Abs.count_free g im' = Abs.count_free g im + N.of_nat (length l) /\
+    (forall o, ~ in_store_area g o -> (o < g_root_off g \/ g_root_off g + root_bytes g <= o) -> img_get im' o = img_get im o) /\
+    fi_inv fstore (val_ft (ft_of g)) (store_of g im') (map_free fi (fun n => n + N.of_nat (length l))) (g_clusters g).
+Proof. exact vol_remove_dir_empty_reclaims. Qed.
+
+Print Assumptions C05_vol_remove_dir_reclaims_all.
